@@ -20,7 +20,7 @@ type Req struct {
 	AtMs   int
 	Seq    uint32
 	Nack   bool
-	Answer string // intime | late | never | foreign | intime-dup
+	Answer string // intime | late | never | foreign | intime-dup | unreachable (the node's own send towards the target fails)
 	UseSrc bool   // request carries SourceAddr/SourcePort (reply goes there) or not (reply to the UDP source)
 }
 
@@ -35,7 +35,7 @@ func genRPlan(t *rapid.T) RPlan {
 	p.Reqs = rapid.SliceOfN(rapid.Custom(func(t *rapid.T) Req {
 		at += rapid.SampledFrom([]int{1, 2, 50, 299, 301, 700}).Draw(t, "gap")
 		return Req{AtMs: at, Seq: uint32(rapid.SampledFrom([]int{1, 2, 3, 77, 1 << 20}).Draw(t, "seq")), Nack: rapid.Bool().Draw(t, "nack"),
-			Answer: rapid.SampledFrom([]string{"intime", "intime", "late", "never", "foreign", "intime-dup"}).Draw(t, "answer"), UseSrc: rapid.Bool().Draw(t, "usesrc")}
+			Answer: rapid.SampledFrom([]string{"intime", "intime", "late", "never", "foreign", "intime-dup", "unreachable"}).Draw(t, "answer"), UseSrc: rapid.Bool().Draw(t, "usesrc")}
 	}), 1, 6).Draw(t, "reqs")
 	return p
 }
@@ -73,9 +73,17 @@ func runR(pl RPlan) (res vfx.Result) {
 	}
 	var pings []seen // pings the node sent to the target, in order
 	answers := make([]string, 0)
+	nReach := 0
 	for _, r := range pl.Reqs {
-		answers = append(answers, r.Answer)
+		if r.Answer != "unreachable" {
+			answers = append(answers, r.Answer)
+			nReach++
+		}
 	}
+	// a second target address towards which the node's packet writes fail (no route to host)
+	lost := p.AddPeer("lost", "10.0.0.41", 7946, vsn)
+	lost.AckPings = false
+	p.EP.SetUnreachable(lost.Addr(), true)
 	tgt.OnLeaf = func(from string, l wire.Leaf) bool {
 		pg, ok := l.V.(*wire.Ping)
 		if !ok {
@@ -113,6 +121,9 @@ func runR(pl RPlan) (res vfx.Result) {
 			time.Sleep(w)
 		}
 		ind := &wire.IndirectPing{SeqNo: r.Seq, Target: tgt.IPBytes(), Port: 7946, Node: "tgt", Nack: r.Nack}
+		if r.Answer == "unreachable" {
+			ind.Target, ind.Node = lost.IPBytes(), "lost"
+		}
 		if r.UseSrc {
 			ind.SourceAddr, ind.SourcePort, ind.SourceNode = req.IPBytes(), 7946, "req"
 		}
@@ -121,8 +132,8 @@ func runR(pl RPlan) (res vfx.Result) {
 	}
 	time.Sleep(2 * time.Second)
 	p.Settle()
-	if len(pings) != len(pl.Reqs) {
-		return fail("%d indirect ping requests produced %d pings to the target", len(pl.Reqs), len(pings))
+	if len(pings) != nReach {
+		return fail("%d indirect ping requests for the reachable target produced %d pings to it", nReach, len(pings))
 	}
 	out, _, err := p.OutboundSince(0)
 	if err != nil {
@@ -130,10 +141,6 @@ func runR(pl RPlan) (res vfx.Result) {
 	}
 	usedSeq := map[uint32]bool{}
 	for i, pg := range pings {
-		r := pl.Reqs[i]
-		if pg.seq == r.Seq {
-			labels["fresh-seq-collision-possible"] = true
-		}
 		if usedSeq[pg.seq] {
 			return fail("request %d: the ping to the target reuses sequence number %d", i, pg.seq)
 		}
